@@ -19,6 +19,7 @@ import (
 
 	"github.com/rs/zerolog"
 	"github.com/theparanoids/crypki/proto"
+	gproto "google.golang.org/protobuf/proto"
 	agssh "github.com/theparanoids/ysshra/agent/ssh"
 	"github.com/theparanoids/ysshra/common"
 	"github.com/theparanoids/ysshra/config"
@@ -73,6 +74,8 @@ type CABehaviour struct {
 
 // FakeCA implements csr.Signer: it really certifies the requested public key.
 type FakeCA struct {
+	// Scribble: the signer edits the request object it was handed (after copying it for its record)
+	Scribble bool
 	mu      sync.Mutex
 	Calls   []CACall
 	Script  []CABehaviour // per call index; the last entry repeats
@@ -107,6 +110,19 @@ func (ca *FakeCA) Sign(ctx context.Context, req *proto.SSHCertificateSigningRequ
 	i := len(ca.Calls)
 	b := ca.behaviour(i)
 	call := CACall{Req: req, Err: b.Err}
+	if ca.Scribble {
+		// a signer that treats the request it was handed as its own: it keeps a copy for the record and edits the original
+		call.Req = gproto.Clone(req).(*proto.SSHCertificateSigningRequest)
+		delete(req.Extensions, "permit-X11-forwarding")
+		if req.Extensions != nil {
+			req.Extensions["verif-scribble"] = "1"
+		}
+		if req.CriticalOptions != nil {
+			req.CriticalOptions["verif-scribble"] = "1"
+		}
+		req.Principals = append(req.Principals, "scribbled-by-the-signer")
+		req.Validity, req.KeyId = 1, "scribbled"
+	}
 	ca.Calls = append(ca.Calls, call)
 	on := ca.OnCall
 	ca.mu.Unlock()
@@ -418,6 +434,8 @@ type FakeHandler struct {
 	// SameKeyID: the requests of one agent key all carry the same KeyId and differ in the CA key they name
 	// (KeyMeta.Identifier "verif-slot-<j>"): one certificate per CA key for the same key and identity
 	SameKeyID bool
+	// EmptyKeyAt (1-based, 0 = none): that agent key carries no signing request at all
+	EmptyKeyAt int
 	Keys    []*FakeAgentKey
 	Refresh func(*agent.Key) bool
 }
@@ -559,7 +577,7 @@ func (h *FakeHandler) Generate(p *csr.ReqParam) ([]csr.AgentKey, error) {
 			fk.inner = ak
 			pubText = string(ssh.MarshalAuthorizedKey(ak.PublicKey()))
 		}
-		for j := 0; j < nr; j++ {
+		for j := 0; j < nr && h.EmptyKeyAt != i+1; j++ {
 			req := &proto.SSHCertificateSigningRequest{KeyMeta: &proto.KeyMeta{Identifier: "verif"}, Principals: []string{p.LogName},
 				PublicKey: pubText, Validity: 3600, KeyId: fmt.Sprintf("verif %s key %d request %d", h.ID, i, j)}
 			if h.SameKeyID {
